@@ -7,8 +7,8 @@ SPEC = {
     "rule": "three enumerations on the ASan+UBSan build, every parse in a forked child. (total) every string over a 15-token "
             "alphabet {colvar, harmonic, name, distance, group1, atomNumbers, '{', '}', LF, CRLF, 1, '#', tab, NUL, 0x80} up to "
             "length 4 (quick) / 5 (thorough) plus every string of length 5 / 6 over the 12-token alphabet with '#', and every "
-            "single-byte deletion and truncation (thorough: also replacement by 6 bytes) at every offset of every loadable "
-            "repository test input (tests/input_files/*/test.in on the 104-atom deca-alanine system) and 3 own configurations; "
+            "single-byte deletion and truncation (thorough: also replacement by each of 6 bytes) at every offset of the 86 loadable "
+            "repository test inputs (tests/input_files/*/test.in on the 104-atom deca-alanine system) and 3 own configurations; "
             "a token string is additionally checked against an independent reading of the syntax (unmatched brace or a "
             "top-level line that does not start with a global keyword => must be rejected). (strict) at every keyword "
             "occurrence, brace and value of every corpus file: 3 (thorough 7) misspellings, a copy of the keyword into every "
@@ -21,7 +21,7 @@ SPEC = {
             "bit-identical values, bias energies, total energy, atom forces and state text. A case is distinct by its "
             "configuration text; it is non-trivial when that text differs from the unmodified file (every token string is).",
     "assumptions": ["finite token alphabet and single-byte mutations: nothing is claimed about byte strings outside them",
-                    "corpus = the repository's 89 loadable test inputs (customFunction, torchANN and the residue-based "
+                    "corpus = the repository's 86 loadable test inputs (customFunction, torchANN and the residue-based "
                     "protein_cvs input are left out) + 3 own configurations, on one 104-atom system",
                     "ASan+UBSan reports count as crashes (exit 97), uncaught C++ exceptions as crashes (exit 96)",
                     "a number followed by text (`1.0abc`) and a text element at the end of a numeric list are reported under "
